@@ -82,7 +82,11 @@ func compObjs(
 		return object.BuiltInFalse
 	}
 
-	for sym, pair1 := range *o1.Pairs {
+	// NOTE: pairs are compared in order of keys (not by ranging over the inner map)
+	// so that == of the values is called in the same order in every run
+	syms := append(append([]object.SymHash{}, *o1.Keys...), *o1.PrivateKeys...)
+	for _, sym := range syms {
+		pair1 := (*o1.Pairs)[sym]
 		pair2, ok := (*o2.Pairs)[sym]
 		if !ok {
 			return object.BuiltInFalse
